@@ -82,7 +82,7 @@ type c03Chan struct {
 }
 
 type c03Run struct {
-	rctx    async.Context
+	rctx    *runClock
 	chans   []*c03Chan
 	orphans atomic.Int32
 	dupOpen atomic.Int32
@@ -267,7 +267,8 @@ func c03One(s *scenario, run int, derived uint64) {
 		cfg.yieldProb, int64(cfg.yieldSleep))
 
 	timeout := s.runTimeout(10*time.Second, 30*time.Second)
-	rn := &c03Run{rctx: async.TimeoutContext(timeout), chans: c03Plan(cfg, r)}
+	rn := &c03Run{rctx: newRunClock(timeout, s.stallLimit()), chans: c03Plan(cfg, r)}
+	defer rn.rctx.stop()
 	lg := caplog.New()
 
 	fail := func(why string) {
@@ -316,6 +317,7 @@ func c03One(s *scenario, run int, derived uint64) {
 	if joined {
 		joined = rn.waitHandlers(3 * time.Second)
 	}
+	rn.rctx.stop()
 	mpx.VerifSetYield(0, 0, 0)
 	connClosed := false
 	for _, c := range conns {
@@ -380,6 +382,21 @@ func c03One(s *scenario, run int, derived uint64) {
 		}
 	}
 	s.emit(line, viol)
+	if s.verbose && len(viols) > 0 {
+		for _, v := range viols {
+			fmt.Printf("c03 detail run=%d viol=%s\n", run, token(v, 200))
+		}
+		for _, c := range rn.chans {
+			if !joined {
+				break
+			}
+			fmt.Printf("c03 detail run=%d ch=%d conn=%d closer_client=%v wait=%v viaclose=%v batch=%v usecctx=%v "+
+				"cli_sent=%d/%d cli_recv=%d cli_end=%s cli_err=%s srv_sent=%d/%d srv_recv=%d srv_end=%s srv_err=%s\n",
+				run, c.idx, c.conn, c.closerClient, c.waitPeer, c.viaClose, c.batch, c.useCctx,
+				c.cli.sent, len(c.cli.msgs), len(c.cli.recv), token(c.cli.recvEnd, 20), token(c.cli.sendErr, 40),
+				c.srv.sent, len(c.srv.msgs), len(c.srv.recv), token(c.srv.recvEnd, 20), token(c.srv.sendErr, 40))
+		}
+	}
 }
 
 func hasPrefix(vs []string, p string) bool {
@@ -443,7 +460,7 @@ func (r *c03Run) waitHandlers(grace time.Duration) bool {
 func (r *c03Run) client(conn mpx.Conn, c *c03Chan) {
 	ch, st := conn.Channel(r.rctx)
 	if !st.OK() {
-		c.cli.sendErr = "at=open,st=" + string(st.Code)
+		c.cli.sendErr = "at=open,st=" + r.rctx.code(st)
 		return
 	}
 	if c.delayFirst > 0 {
@@ -524,9 +541,10 @@ func (r *c03Run) endpoint(ch mpx.Channel, c *c03Chan, me *c03Side, client bool, 
 				data, st = ch.Receive(rc)
 			}
 			if !st.OK() {
-				me.recvEnd = string(st.Code)
+				me.recvEnd = r.rctx.code(st)
 				return
 			}
+			r.rctx.tick()
 			m := append([]byte{}, data...)
 			me.recv = append(me.recv, m)
 			note(m)
@@ -546,9 +564,10 @@ func (r *c03Run) endpoint(ch mpx.Channel, c *c03Chan, me *c03Side, client bool, 
 			st = ch.Send(r.rctx, me.msgs[i])
 		}
 		if !st.OK() {
-			me.sendErr = fmt.Sprintf("at=%d,st=%s", i, st.Code)
+			me.sendErr = fmt.Sprintf("at=%d,st=%s", i, r.rctx.code(st))
 			return false
 		}
+		r.rctx.tick()
 		me.sent = i + 1
 		return true
 	}
